@@ -685,8 +685,8 @@ func runCluster(c *Ctx) {
 				ev = plan.event
 			} else if i == 2 {
 				// deterministic: the rollout deleted between admission of the release and the first BatchRelease
-				plan = clPlan{kind: "none", event: "delete", evWhen: "before-br"}
-				name, ev = "delete@before-br+none", "delete"
+				plan = clPlan{kind: "crash", at: 8, event: "delete", evWhen: "before-br"}
+				name, ev = "delete@before-br+crash", "delete"
 			}
 			fin, r2, ok2, tr2, evAt, early := clRunX(c, sc, plan, true, budget+40)
 			c.EmitAs("cluster", "final", J{"scenario": sc.Name, "plan": name, "baseline": base, "run": fin,
